@@ -15,6 +15,10 @@ CONSTANTS
   AdvArgs <- AdvOne
   SetArgs <- SetNone
   Msgs <- NoMsgs
+  MCFreq = 1
+  Switch <- NoSwitch
+  Rewidth <- NoSwitch
+  Charsets <- NoSwitch
   Depth = 9
 VIEW HView
 PROPERTY PFrameShape
